@@ -147,7 +147,7 @@ def analyse(run: Any, expects: Dict[tuple, Expect], retire_probe: bool = True) -
             toks[e[1]] = ExecAnalysis(run, e[1], opkey, expects.get(opkey) if opkey else None, e[4])
             toks[e[1]].events.append((seq, e))
         elif k in ("submit", "dispatch_async", "start", "enter", "body", "exit", "wait", "wait_ret", "retire",
-                   "exec_end", "cancelled", "audit_block", "audit_loopblock"):
+                   "exec_end", "cancelled", "audit_block", "audit_loopblock", "pool_starved"):
             t = e[1]
             if t in toks:
                 toks[t].events.append((seq, e))
@@ -501,6 +501,13 @@ def _analyse_exec(run: Any, ea: ExecAnalysis, retire_probe: bool, aborted: bool,
             if a_ is not None and a_["debug"] and nid_ not in in_graph:
                 in_graph.add(nid_)
                 pulled.add(nid_)
+    if getattr(ex, "setup_optional", None):
+        for nid_ in {e[2] for _, e in ea.events if e[0] == "enter"}:
+            a_ = attrs.get(nid_)
+            if a_ is not None and a_["role"] == "main" and a_["path"] in ex.setup_optional and nid_ not in in_graph:
+                in_graph.add(nid_)
+                expected_exec.add(nid_)
+                run.rt.probe("setup_ran_in_concurrent_sibling")
     if ex.setup_only:
         in_graph = {n for n in in_graph if attrs[n]["setup"]}
         expected_exec &= in_graph
@@ -698,6 +705,11 @@ def _analyse_exec(run: Any, ea: ExecAnalysis, retire_probe: bool, aborted: bool,
                 own_threads = [n for n in dispatched if n in attrs and attrs[n]["res"] == "thread" and n not in exit_seq]
                 V.append(viol("loop_blocked_candidate", f"loop thread parked in blocking {e[2]}", op=opkey, tok=tok, seq=seq,
                               own_threads=own_threads, part=e[3]))
+        elif k == "pool_starved":
+            _, _, nids, workers, running = e
+            if workers < mc and running < mc:
+                V.append(viol("idle", f"scheduler blocks while {nids} are submitted but cannot start: the pool has {workers} worker(s), all busy, "
+                              f"max_concurrency={mc} ({running} node(s) actually running)", op=opkey, tok=tok, seq=seq, tags=["pool_starved"]))
         elif k == "wait":
             _, _, kind, waited, rw, blocked = e
             inflight = [n for n in dispatched if n not in observed and n in attrs and attrs[n]["res"] != "main_thread"]
